@@ -122,17 +122,23 @@ pub fn child_main() {
 struct Proc {
     path: std::path::PathBuf,
     child: Option<(Child, ChildStdin, BufReader<ChildStdout>)>,
+    /// where the child's stderr goes (sanitizer reports); None = discarded
+    stderr_to: Option<std::path::PathBuf>,
+    env: Vec<(String, String)>,
 }
 
 impl Proc {
     fn spawn(&mut self) -> bool {
-        let c = Command::new(&self.path)
-            .arg("child")
-            .env("VERIF_ROOT", verif_root())
-            .stdin(Stdio::piped())
-            .stdout(Stdio::piped())
-            .stderr(Stdio::null())
-            .spawn();
+        let stderr = match &self.stderr_to {
+            Some(p) => std::fs::File::create(p).map(Stdio::from).unwrap_or_else(|_| Stdio::null()),
+            None => Stdio::null(),
+        };
+        let mut cmd = Command::new(&self.path);
+        cmd.arg("child").env("VERIF_ROOT", verif_root());
+        for (k, v) in &self.env {
+            cmd.env(k, v);
+        }
+        let c = cmd.stdin(Stdio::piped()).stdout(Stdio::piped()).stderr(stderr).spawn();
         match c {
             Ok(mut c) => {
                 let i = c.stdin.take().expect("stdin");
@@ -201,8 +207,8 @@ pub fn ask_both(req: &str) -> (String, String) {
         if p.is_none() {
             let (d, r) = twin_paths();
             *p = Some(Pair {
-                dbg: Proc { path: d, child: None },
-                rel: Proc { path: r, child: None },
+                dbg: Proc { path: d, child: None, stderr_to: None, env: vec![] },
+                rel: Proc { path: r, child: None, stderr_to: None, env: vec![] },
             });
         }
         let pair = p.as_mut().expect("pair");
@@ -379,7 +385,7 @@ pub fn judge_isolated(prop: &str, engine: &str, case: &Case) -> Outcome {
         let mut p = p.borrow_mut();
         if p.is_none() {
             let exe = std::env::current_exe().unwrap_or_else(|_| "vharness".into());
-            *p = Some(Proc { path: exe, child: None });
+            *p = Some(Proc { path: exe, child: None, stderr_to: None, env: vec![] });
         }
         p.as_mut().expect("proc").ask(&req)
     });
@@ -422,6 +428,81 @@ pub fn judge_isolated(prop: &str, engine: &str, case: &Case) -> Outcome {
                 dfs: None,
                 witness: None,
             }
+        }
+    }
+}
+
+// ------------------------------------------------------------------------------------------------
+// ThreadSanitizer stage (C07): real-thread cases are executed by a child built with -Zsanitizer=thread;
+// a data-race report kills the child (exit code 66) and is a violation of the case being executed.
+
+thread_local! {
+    static TSAN: RefCell<Option<Proc>> = const { RefCell::new(None) };
+}
+
+pub fn tsan_binary() -> std::path::PathBuf {
+    std::env::var("VERIF_TSAN_BIN").map(Into::into).unwrap_or_else(|_| {
+        verif_root().join("harness").join("target-tsan").join("x86_64-unknown-linux-gnu").join("release").join("vharness")
+    })
+}
+
+pub fn judge_under_tsan(prop: &str, engine: &str, case: &Case) -> Outcome {
+    let req = format!("J {} {} {}", prop, engine, case.to_line());
+    let (ans, report) = TSAN.with(|p| {
+        let mut p = p.borrow_mut();
+        if p.is_none() {
+            let log = verif_root().join("harness").join("target-tsan").join(format!("stderr-{:?}.log", std::thread::current().id()).replace(['(', ')'], ""));
+            *p = Some(Proc {
+                path: tsan_binary(),
+                child: None,
+                stderr_to: Some(log),
+                env: vec![("TSAN_OPTIONS".into(), "halt_on_error=1 exitcode=66 second_deadlock_stack=0".into())],
+            });
+        }
+        let pr = p.as_mut().expect("proc");
+        let ans = pr.ask(&req);
+        let report = if ans.starts_with("ABORT") {
+            pr.stderr_to.as_ref().and_then(|f| std::fs::read_to_string(f).ok()).unwrap_or_default()
+        } else {
+            String::new()
+        };
+        (ans, report)
+    });
+    let kind = crate::oracle::kind_class(case.kind).to_string();
+    let mk = |verdict, nontrivial, classes: Vec<&'static str>, inconclusive| Outcome {
+        verdict,
+        sig_ctx: kind.clone(),
+        nontrivial,
+        classes,
+        inconclusive,
+        evals: 1,
+        dfs: None,
+        witness: None,
+    };
+    if ans.starts_with("ABORT") {
+        let race = report.contains("ThreadSanitizer: data race");
+        let frames: Vec<&str> = report.lines().filter(|l| l.trim_start().starts_with("#0") || l.trim_start().starts_with("#1")).take(4).map(|l| l.trim()).collect();
+        let summary = report.lines().find(|l| l.starts_with("SUMMARY")).unwrap_or("");
+        return mk(
+            Err(Violation {
+                what: if race { "data-race-tsan" } else { "crash" },
+                detail: format!(
+                    "the process executing this case on real threads under ThreadSanitizer died ({}): {} | {}",
+                    ans,
+                    summary,
+                    frames.join(" | ").chars().take(700).collect::<String>()
+                ),
+            }),
+            false,
+            vec!["tsan-report"],
+            false,
+        );
+    }
+    match parse_verdict(&ans, "tsan") {
+        Ok((nt, cl)) => mk(Ok(()), nt, cl, false),
+        Err((v, _)) => {
+            let trouble = v.what == "twin-error";
+            mk(if trouble { Ok(()) } else { Err(Violation { what: v.what, detail: v.detail }) }, false, vec![], trouble)
         }
     }
 }
